@@ -30,11 +30,19 @@ def main():
         sys.path.insert(0, VERIF)
         from acsa import rules as rules_pkg
 
-        for p in props or rules_pkg.all_props():
-            rr = subprocess.run([sys.executable, "-m", "acsa", "check", p, "--tier", "quick"], cwd=VERIF, capture_output=True, text=True)
+        from concurrent.futures import ThreadPoolExecutor
+
+        env = dict(os.environ, ACSA_NO_EVIDENCE="1")
+
+        def one(p):
+            rr = subprocess.run([sys.executable, "-m", "acsa", "check", p, "--tier", "quick"], cwd=VERIF, capture_output=True, text=True, env=env)
             viol = [l.strip() for l in rr.stdout.splitlines() if l.strip().startswith("violation:")]
             err = [l.strip() for l in rr.stdout.splitlines() if l.startswith("ANALYSIS-ERROR")]
-            out[p] = {"rc": rr.returncode, "violations": viol, "errors": err}
+            return p, {"rc": rr.returncode, "violations": viol, "errors": err}
+
+        with ThreadPoolExecutor(10) as ex:
+            for p, v in ex.map(one, props or rules_pkg.all_props()):
+                out[p] = v
     finally:
         subprocess.run(["git", "-C", "/repo", "checkout", "--", "."], check=True)
     fired = {p: v for p, v in out.items() if v["rc"] != 0}
